@@ -1108,7 +1108,16 @@ type MTxRes struct {
 // proposer order. forceFail >= 0 makes that tx fail at message level (an
 // injected fault fired inside it).
 func (m *Model) StepBlock(blk *Block, w *BlockWitness, forceFail int) (pre []MResult, fx BlockEffects, txr []MTxRes) {
+	return m.StepBlockF(blk, w, forceFail, -1)
+}
+
+// StepBlockF: as StepBlock; forcePre >= 0 makes that keeper operation fail (an injected listener failure).
+func (m *Model) StepBlockF(blk *Block, w *BlockWitness, forceFail, forcePre int) (pre []MResult, fx BlockEffects, txr []MTxRes) {
 	for i := range blk.Pre {
+		if i == forcePre {
+			pre = append(pre, rej("injected failure"))
+			continue
+		}
 		pre = append(pre, m.ApplyOp(&blk.Pre[i]))
 	}
 	fx = m.BeginBlock(blk.TimeNs, w)
